@@ -58,4 +58,17 @@ PROPS = {
         "assumptions": COMMON_ASSUME + ["no reorgs and no stale RPC views in this property (pointers only advance); C06 covers reorgs",
                                         "anonymous (zero-topic) logs from a watched address are not generated"],
     },
+    "C06": {
+        "level": "exploration", "engine": "syncsim",
+        "rule": "one run = the real L1 info tree syncer (l1infotreesync.New: processor+SQLite, appenders decoding ABI-encoded logs, EVMDownloader, EVMDriver) and the real ReorgDetector(SQLite) in a synctest bubble against a forking fake chain; ops {mine 1..7 blocks with UpdateL1InfoTree/V2/VerifyBatches logs, fork at any depth above the detector's pointer with a shorter/equal/longer branch and different events, advance finalized/safe, release one parked RPC (ok/transient/NotFound), advance the clock, crash+restart with either Start/Subscribe serialisation}; at every quiescent point a processed block may only disappear if some processed block had been replaced; after the op list the chain stops changing (and is extended past its old height), faults stop, and within a step bound the block table must be canonical and complete and the store must equal the naive reference of the final chain (leaves, roots, proofs, rollup exit tree). Non-trivial = a processed block was actually replaced by a fork; distinct = distinct fingerprints of (op, released component/method/mode).",
+        "tiers": {"quick": {"runs": 1600, "budget_s": 70, "selftest_seeds": 30, "selftest_procs": 9, "chunk": 100},
+                  "thorough": {"runs": 24000, "budget_s": 700, "selftest_seeds": 300, "selftest_procs": 30, "master_seeds": 3, "chunk": 100}},
+        "probes": ["forks", "forks_shortening", "blocks_rewound", "crash_restart", "crash_restart_subscribe_first", "runs_with_replaced_processed_block", "rpc_fault_1_HeaderByNumber"],
+        "real": ["l1infotreesync.New (processor, SQLite, appenders, trees)", "sync.EVMDownloader / sync.EVMDriver (handleNewBlock, handleReorg)", "reorgdetector.ReorgDetector with SQLite (tracking, ticker, detection, notification, persistence across restarts)"],
+        "stub": ["L1 chain and its RPC (fakechain with forks)", "crash = all goroutines stopped at a quiescent point, objects rebuilt on the same SQLite files (no transaction is open at a quiescent point)"],
+        "assumptions": COMMON_ASSUME + ["one subscriber per ReorgDetector instance (mutex held across an RPC is not durably blocking under synctest)",
+                                        "forks never go at or below the pointer the detector is configured with; the chain eventually grows past its previous height",
+                                        "several select cases ready at once (blocks buffered while a reorg notification arrives) are not explored through the real select; storesim covers both orders at store level",
+                                        "with -tags verif the driver blocks instead of spinning on a closed download channel (hook sync/verif_hooks_on.go)"],
+    },
 }
